@@ -68,8 +68,8 @@ def arg_rule(dec: str, A: str, kind: int, in_class: bool, is_lambda: bool) -> bo
 def obligations(tier, seed):
     t = 900 if tier == 'quick' else 2400
     return [
-        dict(name='C04.interface_names', fn='interface_names', shards=plan(skeletons.TEMPLATES, tier, seed + 1, 18), timeout=t,
-             bounds='see META; quick = seeded rotation of 18 skeletons', public_replay='public_interface_names'),
+        dict(name='C04.interface_names', fn='interface_names', shards=plan(skeletons.TEMPLATES, tier, seed + 1, 24), timeout=t,
+             bounds='see META; quick = seeded rotation of 24 skeletons', public_replay='public_interface_names'),
         dict(name='C04.arg_rule', fn='arg_rule', shards=[['kind == %d' % kd] for kd in range(6)], timeout=t,
              bounds='6 parameter kinds x in/out of class x def/lambda, decorator name |dec| <= 11 and parameter name |A| <= 4 symbolic'),
         dict(name='C04.twin', fn='rename_binding_twin', shards=[['k == 5', 'len(A) == 3 and len(B) == 3 and len(C) == 3']],
